@@ -57,6 +57,9 @@ profile('routing', XRT.gen_routing)
 
 profile('rx', XRX.gen_rx)
 
+profile('core-lease', P.gen_core_lease)
+profile('core-eager', P.gen_core_eager)
+
 # property -> {'profiles': [(name, quick_runs, thorough_runs)], 'oracles': [...]}
 CHECKS = {
     'C01': {'profiles': [('core', 3000, 120000), ('core-msg', 1000, 40000), ('core-frag', 1500, 60000),
@@ -67,15 +70,17 @@ CHECKS = {
     'C04': {'profiles': [('parser', 20000, 600000)], 'oracles': [XP.oracle_c04], 'level': 'exploration'},
     'C05': {'profiles': [('core-stall', 4000, 160000), ('core-frag', 1500, 60000), ('core', 1000, 40000)],
             'oracles': [O.oracle_c05], 'level': 'exploration'},
-    'C06': {'profiles': [('core-credit', 4000, 160000), ('core', 1500, 60000), ('core-stall', 1000, 40000)],
+    'C06': {'profiles': [('core-credit', 4000, 160000), ('core', 1500, 60000), ('core-stall', 1000, 40000),
+                         ('core-eager', 1000, 40000)],
             'oracles': [O.oracle_c06], 'level': 'exploration'},
-    'C08': {'profiles': [('core', 2500, 100000), ('core-cancel', 2500, 100000), ('core-ends', 1500, 60000)],
+    'C08': {'profiles': [('core', 2000, 80000), ('core-cancel', 2000, 80000), ('core-ends', 1500, 60000),
+                         ('core-lease', 1000, 40000), ('core-eager', 1000, 40000)],
             'oracles': [O.oracle_c08], 'level': 'exploration'},
     'C13': {'profiles': [('core-ids', 5000, 200000), ('core', 1000, 40000)],
             'oracles': [O.oracle_c13], 'level': 'exploration'},
     'C07': {'profiles': [('core-cancel', 2500, 100000), ('core-ends', 2500, 100000), ('core', 1000, 40000)],
             'oracles': [O.oracle_c07], 'level': 'exploration'},
-    'C09': {'profiles': [('core-cancel', 4000, 150000), ('cancel-sweep', 60, 2500)],
+    'C09': {'profiles': [('core-cancel', 4000, 150000), ('cancel-sweep', 60, 2500), ('core-lease', 1000, 40000)],
             'oracles': [O.oracle_c09], 'level': 'exploration'},
     'C11': {'profiles': [('cut', 4000, 150000), ('cut-sweep', 48, 2000)],
             'oracles': [O.oracle_c11], 'level': 'fault_enumeration'},
